@@ -467,9 +467,12 @@ fn wfile(a: &[&str]) -> Option<String> {
 }
 
 fn meta(s: String) -> String {
-    let r = guarded(AssertUnwindSafe(|| -> Result<(), Error> {
-        let pkg = PackageBuilder::new(&s, &s, &s, &s, &s)
+    let r = guarded(AssertUnwindSafe(|| -> Result<String, Error> {
+        use rpm::{Dependency as D, Scriptlet};
+        let scr = || Scriptlet::new(s.clone()).flags(rpm::ScriptletFlags::EXPAND).prog(vec![s.clone(), s.clone()]);
+        let b = PackageBuilder::new(&s, &s, &s, &s, &s)
             .compression(CompressionType::None)
+            .epoch(s.len() as u32)
             .release(s.clone())
             .url(s.clone())
             .vcs(s.clone())
@@ -480,13 +483,69 @@ fn meta(s: String) -> String {
             .build_host(&s)
             .cookie(&s)
             .add_changelog_entry(&s, &s, 1u32)
-            .with_file(source_file(), FileOptions::new("/usr/bin/x").user(s.clone()).group(s.clone()).symlink(s.clone()))?
-            .build()?;
-        let _ = roundtrip(&pkg);
-        Ok(())
+            // every scriptlet setter: from the text itself (`impl From<T: Into<String>> for Scriptlet`) and from a `Scriptlet`
+            .pre_install_script(s.as_str()).post_install_script(s.clone()).pre_uninstall_script(scr()).post_uninstall_script(scr())
+            .pre_trans_script(s.as_str()).post_trans_script(scr()).pre_untrans_script(s.clone()).post_untrans_script(scr())
+            .verify_script(scr())
+            // every dependency setter
+            .provides(D::eq(s.clone(), s.clone())).requires(D::any(s.clone())).conflicts(D::less(s.clone(), s.clone()))
+            .obsoletes(D::greater_eq(s.clone(), s.clone())).recommends(D::user(&s)).suggests(D::group(&s))
+            .enhances(D::config(&s, s.clone())).supplements(D::rpmlib(&s, s.clone()))
+            .with_file(source_file(), FileOptions::new("/usr/bin/x").user(s.clone()).group(s.clone()).symlink(s.clone()))?;
+        // every other text is built through `build_and_sign` (Ed25519 test key), the others through `build`
+        let pkg = if s.len() % 2 == 1 {
+            let key = std::fs::read("/repo/tests/assets/signing_keys/secret_ed25519.asc")?;
+            b.build_and_sign(rpm::signature::pgp::Signer::load_from_asc_bytes(&key)?)?
+        } else {
+            b.build()?
+        };
+        // the round trip: every value comes back as given (a header string ends at its first NUL)
+        let p = match roundtrip(&pkg) { Ok(p) => p, Err(e) => return Ok(e) };
+        let m = &p.metadata;
+        let eq = |r: Result<&str, Error>| r.map(|v| v == s).unwrap_or(false);
+        let script_eq = |r: Result<Scriptlet, Error>, full: bool| r.map(|x| x.script == s && (!full || (x.flags == Some(rpm::ScriptletFlags::EXPAND)
+            && x.program == Some(vec![s.clone(), s.clone()])))).unwrap_or(false);
+        let dep_first = |r: Result<Vec<D>, Error>, name: &str, version: &str| r.map(|v| v.first().map(|d| d.name == name && d.version == version).unwrap_or(false)).unwrap_or(false);
+        let mut bad: Vec<&str> = Vec::new();
+        if !eq(m.get_name()) { bad.push("name"); }
+        if !eq(m.get_version()) { bad.push("version"); }
+        if !eq(m.get_release()) { bad.push("release"); }
+        if !eq(m.get_arch()) { bad.push("arch"); }
+        if !eq(m.get_license()) { bad.push("license"); }
+        if !eq(m.get_summary()) { bad.push("summary"); }
+        if !eq(m.get_description()) { bad.push("description"); }
+        if !eq(m.get_url()) { bad.push("url"); }
+        if !eq(m.get_vcs()) { bad.push("vcs"); }
+        if !eq(m.get_vendor()) { bad.push("vendor"); }
+        if !eq(m.get_packager()) { bad.push("packager"); }
+        if !eq(m.get_group()) { bad.push("group"); }
+        if !eq(m.get_build_host()) { bad.push("buildhost"); }
+        if !eq(m.get_cookie()) { bad.push("cookie"); }
+        if m.get_epoch().ok() != Some(s.len() as u32) { bad.push("epoch"); }
+        if !script_eq(m.get_pre_install_script(), false) { bad.push("prein"); }
+        if !script_eq(m.get_post_install_script(), false) { bad.push("postin"); }
+        if !script_eq(m.get_pre_uninstall_script(), true) { bad.push("preun"); }
+        if !script_eq(m.get_post_uninstall_script(), true) { bad.push("postun"); }
+        if !script_eq(m.get_pre_trans_script(), false) { bad.push("pretrans"); }
+        if !script_eq(m.get_post_trans_script(), true) { bad.push("posttrans"); }
+        if !script_eq(m.get_pre_untrans_script(), false) { bad.push("preuntrans"); }
+        if !script_eq(m.get_post_untrans_script(), true) { bad.push("postuntrans"); }
+        if !dep_first(m.get_provides(), &s, &s) { bad.push("provides"); }
+        if !dep_first(m.get_requires(), &s, "") { bad.push("requires"); }
+        if !dep_first(m.get_conflicts(), &s, &s) { bad.push("conflicts"); }
+        if !dep_first(m.get_obsoletes(), &s, &s) { bad.push("obsoletes"); }
+        if !dep_first(m.get_recommends(), &format!("user({})", s), "") { bad.push("recommends"); }
+        if !dep_first(m.get_suggests(), &format!("group({})", s), "") { bad.push("suggests"); }
+        if !dep_first(m.get_enhances(), &format!("config({})", s), &s) { bad.push("enhances"); }
+        if !dep_first(m.get_supplements(), &format!("rpmlib({})", s), &s) { bad.push("supplements"); }
+        let cl_ok = m.get_changelog_entries().map(|v| v.len() == 1 && v[0].name == s && v[0].description == s && v[0].timestamp == 1).unwrap_or(false);
+        if !cl_ok { bad.push("changelog"); }
+        let f_ok = m.get_file_entries().map(|v| v.len() == 1 && v[0].ownership.user == s && v[0].ownership.group == s && v[0].linkto == s).unwrap_or(false);
+        if !f_ok { bad.push("file"); }
+        Ok(if bad.is_empty() { "ok rt=all".to_string() } else { format!("ok rt={}", bad.join("+")) })
     }));
     match r {
-        Ok(Ok(())) => "ok".into(),
+        Ok(Ok(s)) => s,
         Ok(Err(e)) => err_class(&e).into(),
         Err(_) => "panic".into(),
     }
